@@ -91,6 +91,7 @@ NTR:
 
 from dawgie.pl.jobinfo import State
 
+import calendar
 import datetime
 import dawgie
 import dawgie.context
@@ -144,11 +145,13 @@ def _delay(when: dawgie.EVENT) -> datetime.timedelta:
             pass
 
         if when.moment.dom is not None:
-            nm = now.month + 1
+            nm = now.month + (1 if when.moment.dom < now.day else 0)
+            ny = now.year + (1 if nm == 13 else 0)
+            nm = 1 if nm == 13 else nm
             then = datetime.datetime(
-                year=now.year + (1 if nm == 13 else 0),
-                month=1 if nm == 13 else nm,
-                day=when.moment.dom,
+                year=ny,
+                month=nm,
+                day=min(when.moment.dom, calendar.monthrange(ny, nm)[1]),
                 hour=when.moment.time.hour,
                 minute=when.moment.time.minute,
                 second=when.moment.time.second,
